@@ -70,6 +70,28 @@ def build(tree, mode):
         if isinstance(tree, dict):
             return n0struct.n0dict(txt) if tree else n0struct.n0dict()
         return n0struct.n0list(txt) if tree else n0struct.n0list()
+    if mode == "tuples":
+        # raw Python data with tuples where the lists are (below the root): the resolvers accept a tuple wherever they
+        # accept a list
+        def tup(v, top=False):
+            if isinstance(v, dict):
+                return {k: tup(x) for k, x in v.items()}
+            if isinstance(v, list):
+                items = [tup(x) for x in v]
+                return items if top else tuple(items)
+            return v
+        t = tup(copy.deepcopy(tree), top=True)
+        return n0struct.n0dict(t) if isinstance(t, dict) else n0struct.n0list(t)
+    if mode == "convtup":
+        # convert_recursively applied to raw data with tuples: the converter turns them into n0list like lists
+        def tup2(v, top=False):
+            if isinstance(v, dict):
+                return {k: tup2(x) for k, x in v.items()}
+            if isinstance(v, list):
+                items = [tup2(x) for x in v]
+                return items if top else tuple(items)
+            return v
+        return n0struct.n0dict.convert_recursively(tup2(copy.deepcopy(tree), top=True))
     if mode == "missing":
         # raw data whose nested dictionaries answer absent keys themselves (collections.defaultdict): the same tree as
         # far as its content goes - a key that was never stored is absent, whatever dict[key] would make up for it
